@@ -254,7 +254,7 @@ impl Model {
         for (k, t) in list {
             // MIRRORS FINDING 2 (findings/proposed_known_findings.json): a held key is skipped whatever version
             // is held. If /repo starts comparing versions here, compare `index.get(k) == Some(t)` instead.
-            if index.contains_key(k) || self.queue.contains_key(&(*k, *t, holder)) {
+            if index.get(k) == Some(t) || self.queue.contains_key(&(*k, *t, holder)) {
                 continue;
             }
             if let Some(f) = &self.far_min {
@@ -281,7 +281,7 @@ impl Model {
         }
         // MIRRORS FINDING 1: the fast path is decided on the FILTERED list. If /repo decides it on the advertised
         // list, this becomes `list.len() == 1 && filtered.len() == 1`.
-        if filtered.len() == 1 {
+        if list.len() == 1 && filtered.len() == 1 {
             let (k, t) = filtered[0];
             if self.infl.contains_key(&(k, t)) {
                 tr.fast_blocked = true;
